@@ -1,5 +1,12 @@
 #!/usr/bin/env python3
-"""Translator: regenerate coq/theories/Gen/Consts.v from /repo's *current* Rust sources.
+"""Translator: regenerate coq/theories/Gen/Consts.v from /repo's *current* code.
+
+Two sources, in this order of preference:
+ (1) the values the COMPILED crate has (harness `--consts`, file given with --compiled): independent of how a constant is
+     spelled in the source (literal, expression, const/static, derived from another constant, private constants observed
+     through the public behaviour that exposes them);
+ (2) the Rust source text (regular expressions + a small constant-expression evaluator): used for every name the compiled
+     list does not provide, and for everything when the harness could not be built.
 
 Every protocol constant, flag bit and CRC parameter set the Coq model mentions comes from here, so the
 theorems (and the vector anchors of Spec/Vectors.v) are re-checked against what the code says now.
@@ -23,23 +30,42 @@ def strip_comments(src):
     return re.sub(r"//[^\n]*", "", src)
 
 
-def lit(s):
-    s = s.strip().replace("_", "")
-    s = re.sub(r"(u8|u16|u32|u64|u128|usize|i32|i64)$", "", s)
-    if s.startswith("0x") or s.startswith("0X"):
-        return int(s[2:], 16)
-    if s.startswith("0b"):
-        return int(s[2:], 2)
-    if re.fullmatch(r"[0-9]+", s):
-        return int(s)
-    raise ValueError("not an integer literal: %r" % s)
+def lit(s, src=None, depth=0):
+    """integer literal, or a constant expression over literals and other constants of the same file (+ - * / << | & parentheses, `as` casts)"""
+    raw = s
+    s = s.strip()
+    s = re.sub(r"\bas\s+(u8|u16|u32|u64|u128|usize|i32|i64)\b", "", s)
+    toks = re.findall(r"0[xX][0-9a-fA-F_]+|0b[01_]+|[0-9][0-9_]*(?:u8|u16|u32|u64|u128|usize|i32|i64)?|[A-Za-z_][A-Za-z0-9_:]*|<<|>>|[-+*/|&()]|\S", s)
+    out = []
+    for t in toks:
+        if re.fullmatch(r"0[xX][0-9a-fA-F_]+", t):
+            out.append(str(int(t[2:].replace("_", ""), 16)))
+        elif re.fullmatch(r"0b[01_]+", t):
+            out.append(str(int(t[2:].replace("_", ""), 2)))
+        elif re.match(r"[0-9]", t):
+            out.append(str(int(re.sub(r"(u8|u16|u32|u64|u128|usize|i32|i64)$", "", t).replace("_", ""))))
+        elif t in ("<<", ">>", "+", "-", "*", "|", "&", "(", ")"):
+            out.append(t)
+        elif t == "/":
+            out.append("//")
+        elif re.fullmatch(r"[A-Za-z_][A-Za-z0-9_:]*", t) and src is not None and depth < 8:
+            out.append(str(const(src, t.split("::")[-1], depth + 1)))
+        else:
+            raise ValueError("not a constant integer expression: %r" % raw)
+    try:
+        v = eval(" ".join(out), {"__builtins__": {}}, {})
+    except Exception:
+        raise ValueError("not a constant integer expression: %r" % raw)
+    if not isinstance(v, int) or v < 0:
+        raise ValueError("not a constant integer expression: %r" % raw)
+    return v
 
 
-def const(src, name):
-    m = re.search(r"\bconst\s+%s\s*:\s*[A-Za-z0-9_:<>]+\s*=\s*([^;]+);" % re.escape(name), src)
+def const(src, name, depth=0):
+    m = re.search(r"\b(?:const|static)\s+%s\s*:\s*[A-Za-z0-9_:<>]+\s*=\s*([^;]+);" % re.escape(name), src)
     if not m:
         raise KeyError("constant %s not found" % name)
-    return lit(m.group(1))
+    return lit(m.group(1), src, depth)
 
 
 def bitflags_entries(src, struct):
@@ -49,7 +75,18 @@ def bitflags_entries(src, struct):
     ents = re.findall(r"const\s+([A-Z0-9_]+)\s*=\s*([^;]+);", m.group(1))
     if not ents:
         raise KeyError("no entries in bitflags struct %s" % struct)
-    return [(n, lit(v)) for n, v in ents]
+    return [(n, lit(v, src)) for n, v in ents]
+
+
+def crc_catalog_version():
+    try:
+        m = re.search(r'name = "crc-catalog"\nversion = "([^"]+)"', read("Cargo.lock"))
+        if m:
+            return m.group(1)
+    except OSError:
+        pass
+    pats = glob.glob(os.path.expanduser("~/.cargo/registry/src/*/crc-catalog-*/src/algorithm.rs"))
+    return sorted(pats)[-1].split("crc-catalog-")[1].split("/")[0] if pats else "?"
 
 
 def crc_algorithm(alg_name):
@@ -74,101 +111,147 @@ def crc_algorithm(alg_name):
     return d, ver
 
 
+def read_compiled(path):
+    """harness --consts output: NAME VALUE lines, flag groups between `#begin <struct>` and `#end`"""
+    vals, groups, cur = {}, {}, None
+    for line in open(path).read().split("\n"):
+        line = line.strip()
+        if not line:
+            continue
+        if line.startswith("#begin "):
+            cur = line.split(" ", 1)[1]
+            groups[cur] = []
+            continue
+        if line.startswith("#end"):
+            cur = None
+            continue
+        name, v = line.split(" ", 1)
+        v = {"true": True, "false": False}.get(v, v)
+        v = v if isinstance(v, bool) else int(v)
+        vals[name] = v
+        if cur is not None:
+            groups[cur].append((name, v))
+    return vals, groups
+
+
 def main():
+    compiled, cgroups = {}, {}
+    if "--compiled" in sys.argv:
+        cp = sys.argv[sys.argv.index("--compiled") + 1]
+        if os.path.exists(cp):
+            compiled, cgroups = read_compiled(cp)
+    used_source = []
     out = []
     w = out.append
-    w("(* GENERATED by tools/gen_consts.py from %s/src/*.rs -- do not edit. *)" % REPO)
+    w("(* GENERATED by tools/gen_consts.py from %s/src/*.rs -- do not edit. *)" % "/repo")
     w("From Coq Require Import NArith Bool.")
     w("Open Scope N_scope.")
     w("")
 
-    def emit(name, val, comment=""):
+    def src(rel):
+        return strip_comments(read(rel))
+
+    def emit(name, getter, comment=""):
+        if name in compiled:
+            val = compiled[name]
+        else:
+            val = getter()
+            used_source.append(name)
         w("Definition %s : N := %d.%s" % (name, val, ("  (* %s *)" % comment) if comment else ""))
 
-    bundle = strip_comments(read("src/bundle.rs"))
-    canonical = strip_comments(read("src/canonical.rs"))
-    crc = strip_comments(read("src/crc.rs"))
-    eid = strip_comments(read("src/eid.rs"))
-    dtntime = strip_comments(read("src/dtntime.rs"))
-    admin = strip_comments(read("src/administrative_record.rs"))
-    flags = strip_comments(read("src/flags.rs"))
+    def flags_group(struct, rel):
+        if struct in cgroups and cgroups[struct]:
+            return cgroups[struct]
+        used_source.append(struct)
+        return bitflags_entries(src(rel), struct)
+
+    def union(ents):
+        r = 0
+        for _, v in ents:
+            r |= v
+        return r
 
     w("(* src/bundle.rs *)")
-    emit("DTN_VERSION", const(bundle, "DTN_VERSION"))
+    emit("DTN_VERSION", lambda: const(src("src/bundle.rs"), "DTN_VERSION"))
     w("(* src/canonical.rs *)")
     for n in ["PAYLOAD_BLOCK_NUMBER", "PAYLOAD_BLOCK", "PREVIOUS_NODE_BLOCK", "BUNDLE_AGE_BLOCK", "HOP_COUNT_BLOCK"]:
-        emit(n, const(canonical, n))
+        emit(n, lambda n=n: const(src("src/canonical.rs"), n))
     w("(* src/crc.rs *)")
     for n in ["CRC_NO", "CRC_16", "CRC_32"]:
-        emit(n, const(crc, n))
+        emit(n, lambda n=n: const(src("src/crc.rs"), n))
     w("(* src/eid.rs *)")
     for n in ["ENDPOINT_URI_SCHEME_DTN", "ENDPOINT_URI_SCHEME_IPN"]:
-        emit(n, const(eid, n))
+        emit(n, lambda n=n: const(src("src/eid.rs"), n))
     w("(* src/dtntime.rs *)")
     for n in ["SECONDS1970_TO2K", "MS1970_TO2K", "DTN_TIME_EPOCH"]:
-        emit(n, const(dtntime, n))
+        emit(n, lambda n=n: const(src("src/dtntime.rs"), n))
     w("(* src/administrative_record.rs *)")
     for n in ["BUNDLE_STATUS_REPORT_TYPE_CODE", "MAX_STATUS_INFORMATION_POS", "RECEIVED_BUNDLE", "FORWARDED_BUNDLE",
               "DELIVERED_BUNDLE", "DELETED_BUNDLE", "NO_INFORMATION", "LIFETIME_EXPIRED", "HOP_LIMIT_EXCEEDED",
               "BLOCK_UNSUPPORTED"]:
-        emit(n, const(admin, n))
+        emit(n, lambda n=n: const(src("src/administrative_record.rs"), n))
     w("(* src/flags.rs: bitflags! BlockControlFlags *)")
-    bl = bitflags_entries(flags, "BlockControlFlags")
+    bl = flags_group("BlockControlFlags", "src/flags.rs")
     for n, v in bl:
-        emit(n, v)
-    w("Definition BLOCK_ALL_BITS : N := %d.  (* union of all declared flags = from_bits_truncate mask *)"
-      % __import__("functools").reduce(lambda a, b: a | b, [v for _, v in bl]))
+        w("Definition %s : N := %d." % (n, v))
+    w("Definition BLOCK_ALL_BITS : N := %d.  (* union of all declared flags = from_bits_truncate mask *)" % compiled.get("BLOCK_ALL_BITS", union(bl)))
     w("(* src/flags.rs: bitflags! BundleControlFlags *)")
-    bu = bitflags_entries(flags, "BundleControlFlags")
+    bu = flags_group("BundleControlFlags", "src/flags.rs")
     for n, v in bu:
-        emit(n, v)
-    w("Definition BUNDLE_ALL_BITS : N := %d.  (* union of all declared flags = from_bits_truncate mask *)"
-      % __import__("functools").reduce(lambda a, b: a | b, [v for _, v in bu]))
+        w("Definition %s : N := %d." % (n, v))
+    w("Definition BUNDLE_ALL_BITS : N := %d.  (* union of all declared flags = from_bits_truncate mask *)" % compiled.get("BUNDLE_ALL_BITS", union(bu)))
 
     # security.rs (feature bpsec)
     sec_path = os.path.join(REPO, "src/security.rs")
-    if os.path.exists(sec_path):
-        sec = strip_comments(open(sec_path).read())
+    if os.path.exists(sec_path) or "INTEGRITY_BLOCK" in compiled:
         w("(* src/security.rs *)")
         for n in ["INTEGRITY_BLOCK", "CONFIDENTIALITY_BLOCK", "HMAC_SHA_256", "HMAC_SHA_384", "HMAC_SHA_512",
                   "BIB_HMAC_SHA2_ID", "BIB_HMAC_SHA2_RESULT_ID", "SEC_CONTEXT_ABSENT", "SEC_CONTEXT_PRESENT"]:
-            emit(n, const(sec, n))
-        allbits = 0
-        try:
-            for n, v in bitflags_entries(sec, "IntegrityScopeFlags"):
-                emit(n, v)
-                allbits |= v
-        except KeyError:
-            for n in ["INTEGRITY_PRIMARY_HEADER", "INTEGRITY_PAYLOAD_HEADER", "INTEGRITY_SECURITY_HEADER"]:
-                m = re.search(r"const\s+%s\s*=\s*([^;]+);" % n, sec)
-                if not m:
-                    raise KeyError(n)
-                emit(n, lit(m.group(1)))
-                allbits |= lit(m.group(1))
-        w("Definition INTEGRITY_ALL_BITS : N := %d.  (* union of the declared scope flags = from_bits_truncate mask *)" % allbits)
+            emit(n, lambda n=n: const(src("src/security.rs"), n))
+        sc = flags_group("IntegrityScopeFlags", "src/security.rs")
+        for n, v in sc:
+            w("Definition %s : N := %d." % (n, v))
+        w("Definition INTEGRITY_ALL_BITS : N := %d.  (* union of the declared scope flags = from_bits_truncate mask *)" % compiled.get("INTEGRITY_ALL_BITS", union(sc)))
 
-    # CRC algorithms chosen in crc.rs, parameters from the vendored catalogue
-    m16 = re.search(r"pub const X25\s*:\s*Crc<u16>\s*=\s*Crc::<u16>::new\(&\s*([A-Z0-9_]+)\s*\)", crc)
-    m32 = re.search(r"pub const CASTAGNOLI\s*:\s*Crc<u32>\s*=\s*Crc::<u32>::new\(&\s*([A-Z0-9_]+)\s*\)", crc)
-    if not m16 or not m32:
-        raise KeyError("CRC algorithm selection (X25 / CASTAGNOLI) not found in src/crc.rs")
-    for tag, alg in (("crc16", m16.group(1)), ("crc32", m32.group(1))):
-        d, ver = crc_algorithm(alg)
-        w("(* src/crc.rs selects %s; parameters from crc-catalog %s *)" % (alg, ver))
-        for k in ["width", "poly", "init", "xorout", "check", "residue"]:
-            emit("%s_%s" % (tag, k), lit(d[k]))
+    # CRC algorithms chosen in crc.rs: parameters as compiled in, else from the vendored catalogue by the name in the source
+    crc = None
+    try:
+        crc = src("src/crc.rs")
+    except OSError:
+        pass
+    pat = r"pub\s+(?:const|static)\s+%s\s*:\s*Crc<u(?:16|32)>\s*=\s*Crc::<u(?:16|32)>::new\(&\s*(?:[A-Za-z_]+::)*([A-Z0-9_]+)\s*\)"
+    for tag, rust_name in (("crc16", "X25"), ("crc32", "CASTAGNOLI")):
+        m = re.search(pat % rust_name, crc) if crc else None
+        keys = ["width", "poly", "init", "xorout", "check", "residue"]
+        if all(("%s_%s" % (tag, k)) in compiled for k in keys + ["refin", "refout"]):
+            d = {k: compiled["%s_%s" % (tag, k)] for k in keys}
+            refs = {k: compiled["%s_%s" % (tag, k)] for k in ("refin", "refout")}
+            ver = crc_catalog_version()
+            w("(* src/crc.rs selects %s; parameters from crc-catalog %s *)" % (m.group(1) if m else "the algorithm compiled into bp7::crc::%s" % rust_name, ver))
+        else:
+            if not m:
+                raise KeyError("CRC algorithm selection (%s) not found in src/crc.rs" % rust_name)
+            used_source.append(tag)
+            dd, ver = crc_algorithm(m.group(1))
+            d = {k: lit(dd[k]) for k in keys}
+            for k in ("refin", "refout"):
+                if dd[k] not in ("true", "false"):
+                    raise ValueError("bad bool")
+            refs = {k: dd[k] == "true" for k in ("refin", "refout")}
+            w("(* src/crc.rs selects %s; parameters from crc-catalog %s *)" % (m.group(1), ver))
+        for k in keys:
+            w("Definition %s_%s : N := %d." % (tag, k, d[k]))
         for k in ["refin", "refout"]:
-            if d[k] not in ("true", "false"):
-                raise ValueError("bad bool")
-            w("Definition %s_%s : bool := %s." % (tag, k, d[k]))
+            w("Definition %s_%s : bool := %s." % (tag, k, "true" if refs[k] else "false"))
     text = "\n".join(out) + "\n"
     os.makedirs(os.path.dirname(OUT), exist_ok=True)
     old = open(OUT).read() if os.path.exists(OUT) else None
+    how = ("compiled values for %d names" % len(compiled)) + ("; from the source text: %s" % ", ".join(used_source) if used_source else "")
     if old != text:
         open(OUT, "w").write(text)
-        print("gen_consts: wrote %s" % OUT)
+        print("gen_consts: wrote %s (%s)" % (OUT, how))
     else:
-        print("gen_consts: unchanged")
+        print("gen_consts: unchanged (%s)" % how)
     return 0
 
 
